@@ -109,8 +109,10 @@ impl<'a> Fvar<'a> {
                 if let Ok(delta) =
                     varstore.compute_float_delta(var_index.unwrap(), normalized_coords)
                 {
+                    // The final coordinates are clamped to [-1, 1]
+                    // (F2Dot14::MIN..=MAX is [-2, 2): no clamp at all).
                     new_coords[i] = F2Dot14::from_f32((*v).apply_float_delta(delta))
-                        .clamp(F2Dot14::MIN, F2Dot14::MAX);
+                        .clamp(F2Dot14::from_bits(-0x4000), F2Dot14::ONE);
                 }
             }
         }
@@ -275,6 +277,34 @@ mod tests {
             assert_eq!(normalized_coords[0], F2Dot14::from_f32(expected.0));
             assert_eq!(normalized_coords[1], F2Dot14::from_f32(expected.1));
         }
+    }
+
+    #[test]
+    fn avar2_result_is_clamped_to_unit_range() {
+        // avar 2.0, one axis, identity segment map, no axis index map, a store
+        // with one region peaking at 1.0 and a delta of +8192 (0.5) for axis 0:
+        // at the maximum, 1.0 + 0.5 must come out as 1.0.
+        #[rustfmt::skip]
+        let avar_data = font_test_data::bebuffer::BeBuffer::new()
+            .extend([2u16, 0, 0, 1]) // version 2.0, reserved, axisCount
+            .extend([3u16]).extend([-0x4000i16, -0x4000, 0, 0, 0x4000, 0x4000])
+            .extend([0u32, 30]) // axisIndexMapOffset (NULL), varStoreOffset
+            // ItemVariationStore
+            .extend([1u16]).extend([12u32]).extend([1u16]).extend([22u32])
+            .extend([1u16, 1]).extend([0i16, 0x4000, 0x4000]) // region list
+            .extend([1u16, 1, 1, 0]).extend([8192i16]); // item variation data
+        let avar = {
+            use crate::FontRead;
+            crate::tables::avar::Avar::read(avar_data.data().into()).unwrap()
+        };
+        let font = FontRef::new(font_test_data::VAZIRMATN_VAR).unwrap();
+        let fvar = font.fvar().unwrap();
+        let wght = Tag::new(b"wght");
+        let mut coords = [F2Dot14::default(); 1];
+        fvar.user_to_normalized(Some(&avar), [(wght, Fixed::from_f64(900.0))], &mut coords);
+        assert_eq!(coords[0], F2Dot14::ONE);
+        fvar.user_to_normalized(Some(&avar), [(wght, Fixed::from_f64(650.0))], &mut coords);
+        assert_eq!(coords[0], F2Dot14::from_f32(0.75));
     }
 
     #[test]
